@@ -72,8 +72,10 @@ def upward_exposed(stmts):
                     expr_uses(s.target, defined)
             elif isinstance(s, ast.If):
                 expr_uses(s.test, defined)
-                visit(s.body, set(defined))
-                visit(s.orelse, set(defined))
+                d1, d2 = set(defined), set(defined)
+                visit(s.body, d1)
+                visit(s.orelse, d2)
+                defined |= (d1 & d2)  # defined on both branches: defined afterwards
             elif isinstance(s, (ast.While, ast.For)):
                 expr_uses(s.test if isinstance(s, ast.While) else s.iter, defined)
                 inner = set(defined)
@@ -97,6 +99,85 @@ def upward_exposed(stmts):
                         expr_uses(e, defined)
     visit(stmts, set())
     return exposed
+
+
+def attr_exposed(repo, stmts, me, cls, written=None, depth=0, seen=None):
+    """Attributes of self that a statement sequence may read (or mutate through a
+    method / sub-attribute) before *any* store to them in execution order, following
+    self-calls.  A conditional store counts as a store (path-insensitive, chosen so
+    that scratch attributes written and read under the same flag are not reported)."""
+    written = set() if written is None else written
+    seen = seen or set()
+    exposed = set()
+
+    def load(attr):
+        if attr not in written:
+            exposed.add(attr)
+
+    def expr(e):
+        # evaluation order approximated by a pre-order walk; self-calls are followed first-come
+        for n in ast.walk(e):
+            if isinstance(n, ast.Call) and isinstance(n.func, ast.Attribute) and isinstance(n.func.value, ast.Name) and n.func.value.id == me \
+                    and cls is not None and depth < 4:
+                m = cls.resolve(n.func.attr)
+                if m is not None and m.ident not in seen and m.params:
+                    ex2, wr2 = attr_exposed(repo, m.node.body, m.params[0], cls, set(written), depth + 1, seen | {m.ident})
+                    exposed.update(a for a in ex2 if a not in written)
+                    written.update(wr2)
+                    continue
+            if isinstance(n, ast.Attribute) and isinstance(n.ctx, ast.Load) and isinstance(n.value, ast.Name) and n.value.id == me:
+                load(n.attr)
+
+    def stores(t):
+        for n in ast.walk(t):
+            if isinstance(n, ast.Attribute) and isinstance(n.ctx, ast.Store) and isinstance(n.value, ast.Name) and n.value.id == me:
+                written.add(n.attr)
+            elif isinstance(n, ast.Attribute) and isinstance(n.ctx, ast.Load) and isinstance(n.value, ast.Name) and n.value.id == me:
+                load(n.attr)  # self.a.b = ... / self.a[i] = ...: reads self.a
+
+    def visit(block):
+        for st in block:
+            if isinstance(st, (ast.FunctionDef, ast.ClassDef)):
+                continue
+            if isinstance(st, ast.Assign):
+                expr(st.value)
+                for t in st.targets:
+                    stores(t)
+            elif isinstance(st, ast.AugAssign):
+                expr(st.value)
+                if isinstance(st.target, ast.Attribute) and isinstance(st.target.value, ast.Name) and st.target.value.id == me:
+                    load(st.target.attr)
+                    written.add(st.target.attr)
+                else:
+                    stores(st.target)
+            elif isinstance(st, ast.AnnAssign):
+                if st.value is not None:
+                    expr(st.value)
+                stores(st.target)
+            elif isinstance(st, ast.If):
+                expr(st.test)
+                visit(st.body)
+                visit(st.orelse)
+            elif isinstance(st, (ast.While, ast.For)):
+                expr(st.test if isinstance(st, ast.While) else st.iter)
+                visit(st.body)
+                visit(st.orelse)
+            elif isinstance(st, ast.With):
+                for it in st.items:
+                    expr(it.context_expr)
+                visit(st.body)
+            elif isinstance(st, ast.Try):
+                visit(st.body)
+                for h in st.handlers:
+                    visit(h.body)
+                visit(st.orelse)
+                visit(st.finalbody)
+            else:
+                for ch in ast.iter_child_nodes(st):
+                    if isinstance(ch, ast.expr):
+                        expr(ch)
+    visit(stmts)
+    return exposed, written
 
 
 def nested_free_reads(fn_node):
@@ -299,6 +380,10 @@ def run(ctx):
                     attrs.add(n.attr)
         if history_appends(sample, repo, smc) or any(True for _ in _hist_appends(mu)):
             attrs.add("history")
+        # carried across iterations = written in an iteration AND read (or mutated in place) in an iteration before any store to it;
+        # an attribute that every iteration writes before reading is scratch space, not run state
+        exp_, _wr = attr_exposed(repo, loop_node.body, sample.params[0], c)
+        attrs = {a for a in attrs if a in exp_ or a in RANDOM_ATTRS or a == "history"}
         attrs -= set(EXEMPT_ATTRS)
         ces = c.resolve("_checkpoint_extra_state")
         saved = _self_reads(ces) if ces is not None else set()
